@@ -69,6 +69,19 @@ func c16Calls() []c16Call {
 		{Name: "Engine.ApplyBatch", Run: func(e *engine.EngineFacade, s *service.KevoServiceServer) error {
 			return e.ApplyBatch([]*wal.Entry{{Type: wal.OpTypePut, Key: k("n"), Value: k("2")}, {Type: wal.OpTypeDelete, Key: k("a")}})
 		}},
+		// batch shapes: a batch of one may take another path than a batch of several
+		{Name: "Engine.ApplyBatch/one-put-new", Run: func(e *engine.EngineFacade, s *service.KevoServiceServer) error {
+			return e.ApplyBatch([]*wal.Entry{{Type: wal.OpTypePut, Key: k("n"), Value: k("2")}})
+		}},
+		{Name: "Engine.ApplyBatch/one-put-existing", Run: func(e *engine.EngineFacade, s *service.KevoServiceServer) error {
+			return e.ApplyBatch([]*wal.Entry{{Type: wal.OpTypePut, Key: k("a"), Value: k("2")}})
+		}},
+		{Name: "Engine.ApplyBatch/one-delete", Run: func(e *engine.EngineFacade, s *service.KevoServiceServer) error {
+			return e.ApplyBatch([]*wal.Entry{{Type: wal.OpTypeDelete, Key: k("a")}})
+		}},
+		{Name: "Engine.ApplyBatch/three", Run: func(e *engine.EngineFacade, s *service.KevoServiceServer) error {
+			return e.ApplyBatch([]*wal.Entry{{Type: wal.OpTypeDelete, Key: k("b")}, {Type: wal.OpTypePut, Key: k("n"), Value: k("2")}, {Type: wal.OpTypePut, Key: k("n"), Value: k("3")}})
+		}},
 		{Name: "Engine.BeginTransaction", Run: txDo(func(tx interface {
 			Put(k, v []byte) error
 			Delete(k []byte) error
@@ -122,6 +135,14 @@ func c16Calls() []c16Call {
 		}},
 		{Name: "Service.BatchWrite", Run: func(e *engine.EngineFacade, s *service.KevoServiceServer) error {
 			_, err := s.BatchWrite(ctx, &pb.BatchWriteRequest{Operations: []*pb.Operation{{Type: pb.Operation_PUT, Key: k("n"), Value: k("8")}, {Type: pb.Operation_DELETE, Key: k("a")}}})
+			return err
+		}},
+		{Name: "Service.BatchWrite/one-put", Run: func(e *engine.EngineFacade, s *service.KevoServiceServer) error {
+			_, err := s.BatchWrite(ctx, &pb.BatchWriteRequest{Operations: []*pb.Operation{{Type: pb.Operation_PUT, Key: k("n"), Value: k("8")}}})
+			return err
+		}},
+		{Name: "Service.BatchWrite/one-delete", Run: func(e *engine.EngineFacade, s *service.KevoServiceServer) error {
+			_, err := s.BatchWrite(ctx, &pb.BatchWriteRequest{Operations: []*pb.Operation{{Type: pb.Operation_DELETE, Key: k("a")}}})
 			return err
 		}},
 		{Name: "Service.TxPut", Run: svcTx(func(s *service.KevoServiceServer, id string) error {
